@@ -168,7 +168,7 @@ def run(ctx):
     known = {k["id"]: k for k in vlib.load_known_findings("C04")}
     rng = random.Random(ctx.seed + 4)
     want = 24 if ctx.tier == "quick" else 200
-    prof = gendev.Profile(conversions=False, enums=False, reset_values=False, wide=False, max_objects=5, max_depth=2)
+    prof = gendev.Profile(conversions=False, enums=False, reset_values=False, wide=False, max_objects=5, max_depth=2, neg_stride=True)
     cases, defs = [], {}
     tries = 0
     while len(cases) < want * 3 and tries < want * 8:
